@@ -431,6 +431,14 @@ func c15Property(t *rapid.T, st *Stats) {
 		}
 		// (3) error documents
 		stdlibRange := r.code == 416 && strings.HasPrefix(r.hdr.Get("Content-Type"), "text/plain") && (q.method == "GET" || q.method == "HEAD")
+		if stdlibRange && len(bytes.TrimSpace(r.body)) > 0 {
+			// listed finding: the 416 of http.ServeContent carries a text/plain body
+			if avoid("C15/range-error-body-not-oci") {
+				st.Exclude("C15/range-error-body-not-oci: 416 with the text/plain body of http.ServeContent")
+			} else {
+				fail("range-error-body-not-oci", "status 416 for %s %s with Range %q carries the body %q (Content-Type %s), not an OCI error document", q.method, trunc([]byte(q.target), 200), q.opt.hdr["Range"], trunc(r.body, 100), r.hdr.Get("Content-Type"))
+			}
+		}
 		var doc c15ErrDoc
 		if r.code >= 400 && len(bytes.TrimSpace(r.body)) > 0 && !stdlibRange {
 			if err := json.Unmarshal(r.body, &doc); err != nil || len(doc.Errors) == 0 {
